@@ -16,9 +16,12 @@
 //!                             (mask: four characters, '1' = element is compared),
 //!          "observed": path|null       stdout of kp,
 //!          "expected_out": path|null   where to write what the library computes,
-//!          "compare": "numbers" | "prefix" (stdout may stop early) | "count" | "none", "slack": 0.5}
+//!          "compare": "numbers" | "prefix" (stdout may stop early) | "count" | "none", "slack": 0.5,
+//!          "dclass": "shown" | "beyond" (more decimals requested than a binary64 number has: the
+//!                    token must denote the library's number, its count of decimals is free)}
 //! result: {"id":.., "op_ok":bool, "n_expected":n, "n_observed":n, "count_ok":bool,
 //!          "successes": what the library's apply returned for the first direction,
+//!          "successes2": ... for the second direction of a roundtrip (applied to the result of the first),
 //!          "n_mismatch":n, "mismatches":[first five], "evaluations":n}
 //!
 //! Token comparison: the text must be the value with exactly d decimals; a
@@ -62,22 +65,52 @@ fn well_formed(tok: &str, d: usize) -> bool {
     }
 }
 
-fn token_ok(v: f64, d: usize, obs: &str, magnitude: bool, slack: f64) -> bool {
-    let e = format!("{:.*}", d, v);
+/// Every decimal of a binary64 number lies within the first 1074 places
+const ALL_DECIMALS: usize = 1100;
+
+/// The value with d decimals, for any d (the formatting machinery of the standard library has a
+/// limit of its own): what follows the last decimal a binary64 number can have is zeros.
+fn fmt_dec(v: f64, d: usize) -> String {
+    if d <= ALL_DECIMALS || !v.is_finite() {
+        return format!("{:.*}", d.min(ALL_DECIMALS), v);
+    }
+    let mut s = format!("{:.*}", ALL_DECIMALS, v);
+    s.extend(std::iter::repeat('0').take(d - ALL_DECIMALS));
+    s
+}
+
+/// a decimal number: [-]digits[.digits]
+fn is_decimal(tok: &str) -> bool {
+    let t = tok.strip_prefix('-').unwrap_or(tok);
+    let (int, frac) = t.split_once('.').unwrap_or((t, ""));
+    !int.is_empty() && int.bytes().all(|b| b.is_ascii_digit()) && frac.bytes().all(|b| b.is_ascii_digit())
+}
+
+/// for the reports: a token of 100000 decimals is cut
+fn brief(tok: &str) -> String {
+    if tok.len() <= 48 {
+        return tok.to_string();
+    }
+    let decimals = tok.split_once('.').map(|x| x.1.len()).unwrap_or(0);
+    format!("{}...({} decimals)", &tok[..tok.char_indices().nth(32).map(|x| x.0).unwrap_or(tok.len())], decimals)
+}
+
+fn token_ok(v: f64, d: usize, obs: &str, magnitude: bool, slack: f64, beyond: bool) -> bool {
+    let e = fmt_dec(v, d);
     if canon(&e, magnitude) == canon(obs, magnitude) {
         return true;
     }
     if v.is_nan() {
         return obs.eq_ignore_ascii_case("nan");
     }
-    if !v.is_finite() || !well_formed(obs, d) {
+    if !v.is_finite() || !(if beyond { is_decimal(obs) } else { well_formed(obs, d) }) {
         return false;
     }
     let Ok(o) = obs.parse::<f64>() else {
         return false;
     };
     let (a, b) = if magnitude { (o.abs(), v.abs()) } else { (o, v) };
-    let unit = 10f64.powi(-(d as i32));
+    let unit = 10f64.powi(-(d.min(400) as i32));
     (a - b).abs() <= slack * unit * (1.0 + 1e-9) + 4.0 * f64::EPSILON * b.abs()
 }
 
@@ -142,10 +175,11 @@ fn run_job(job: &Value) -> Value {
     };
     let roundtrip = second.is_some();
     let mut successes = 0usize;
+    let mut successes2 = 0usize;
     let r = guarded(|| -> Result<(), String> {
         successes = ctx.apply(op, first, &mut data).map_err(|e| format!("{e:?}"))?;
         if let Some(dir) = second {
-            ctx.apply(op, dir, &mut data).map_err(|e| format!("{e:?}"))?;
+            successes2 = ctx.apply(op, dir, &mut data).map_err(|e| format!("{e:?}"))?;
             for (o, i) in data.iter_mut().zip(input.iter()) {
                 for e in 0..4 {
                     o[e] -= i[e];
@@ -166,20 +200,22 @@ fn run_job(job: &Value) -> Value {
     // units of the last place a token may be away from the library's value: 0.5 = correctly
     // rounded; more for operations whose last bits may differ between two builds of the library
     let slack = job["slack"].as_f64().unwrap_or(0.5);
+    let beyond = job["dclass"].as_str() == Some("beyond");
 
     // "prints what the library computes, rounded and cut"
     if let (Some(path), Some(d), Some(dim)) = (job["expected_out"].as_str(), d, dim) {
         if let Ok(f) = std::fs::File::create(path) {
             let mut w = BufWriter::new(f);
             for t in &data {
-                let toks: Vec<String> = (0..dim.min(4)).map(|e| format!("{:.*}", d, t[e])).collect();
+                let toks: Vec<String> = (0..dim.min(4)).map(|e| fmt_dec(t[e], d)).collect();
                 let _ = writeln!(w, "{}", toks.join(" "));
             }
         }
     }
 
     let Some(obs_path) = job["observed"].as_str() else {
-        return json!({"id": id, "op_ok": true, "n_expected": n, "successes": successes, "evaluations": evaluations});
+        return json!({"id": id, "op_ok": true, "n_expected": n, "successes": successes, "successes2": successes2,
+                      "evaluations": evaluations});
     };
     let observed = match std::fs::read(obs_path) {
         Ok(b) => String::from_utf8_lossy(&b).into_owned(),
@@ -199,7 +235,7 @@ fn run_job(job: &Value) -> Value {
             let mut ok = toks.len() == dim;
             if ok {
                 for e in 0..dim {
-                    if tuples.mask[k][e] && !token_ok(data[k][e], d, toks[e], roundtrip, slack) {
+                    if tuples.mask[k][e] && !token_ok(data[k][e], d, toks[e], roundtrip, slack, beyond) {
                         ok = false;
                         break;
                     }
@@ -209,10 +245,11 @@ fn run_job(job: &Value) -> Value {
                 n_mism += 1;
                 if mism.len() < 5 {
                     let exp: Vec<String> = (0..dim)
-                        .map(|e| if tuples.mask[k][e] { format!("{:.*}", d, data[k][e]) } else { "*".to_string() })
+                        .map(|e| if tuples.mask[k][e] { brief(&fmt_dec(data[k][e], d)) } else { "*".to_string() })
                         .collect();
                     let inp: Vec<String> = (0..4).map(|e| format!("{}", input[k][e])).collect();
-                    mism.push(json!({"line": k + 1, "expected": exp.join(" "), "observed": line.trim_end(),
+                    let obs: Vec<String> = toks.iter().take(8).map(|t| brief(t)).collect();
+                    mism.push(json!({"line": k + 1, "expected": exp.join(" "), "observed": obs.join(" "),
                                      "input_tuple": inp.join(" ")}));
                 }
             }
@@ -221,6 +258,7 @@ fn run_job(job: &Value) -> Value {
     // "prefix": the run was allowed to stop early; what it wrote must be the first lines of the prediction
     let count_ok = if compare == "prefix" { n_obs <= n } else { n == n_obs };
     json!({"id": id, "op_ok": true, "n_expected": n, "n_observed": n_obs, "count_ok": count_ok, "successes": successes,
+           "successes2": successes2,
            "n_mismatch": n_mism, "mismatches": mism, "evaluations": evaluations})
 }
 
